@@ -310,6 +310,15 @@ func (e *Env) Exec(sc *Scenario, b *Built, opID string, watchdog time.Duration) 
 				}
 				ret["closed"] = true
 			}
+		case "control":
+			ch, err := e.Cal.ControlWorkload(ctx, ids, op.Delta, op.Force) // delta: stop | start | restart | suspend | resume
+			fail(err)
+			if err == nil {
+				for m := range ch {
+					out = append(out, Event{"ev": "Msg", "op": opID, "kind": "control", "id": m.WorkloadID, "class": class2(m.Error), "err": errText(m.Error)})
+				}
+				ret["closed"] = true
+			}
 		case "setnode":
 			var res resourcetypes.Resources
 			switch op.Delta {
